@@ -71,6 +71,8 @@ def exercise(V, scheme, nfff, target, proj, tmc, obs_kinds, repeat=False, unsort
     o["TargetDIS"] = copy.deepcopy(target)
     if unsorted_grid:
         o["interpolation_xgrid"] = [1.0, 1e-3, 0.5, 0.1]  # admissible: eko sorts the nodes
+        if tmc:
+            o["interpolation_xgrid"] = np.array(o["interpolation_xgrid"])  # ... and so is an array (np.geomspace, lambertgrid)
     o["ProjectileDIS"] = proj
     # points listed in DEcreasing-then-increasing Q2 (the runner computes in Q2 order; the card must stay as given), keys in both orders
     # every observable has its own points (distinct x), one of them listed twice
@@ -120,7 +122,7 @@ def exercise(V, scheme, nfff, target, proj, tmc, obs_kinds, repeat=False, unsort
             used = r.configs.managers["interpolator"]
             res.append(("output grid is the grid actually used (the interpolator's nodes, in its order)",
                         list(np.asarray(out["xgrid"]["grid"], dtype=float)) == list(np.asarray(used.xgrid.raw, dtype=float))
-                        and sorted(np.asarray(out["xgrid"]["grid"], dtype=float)) == sorted(set(o["interpolation_xgrid"]))
+                        and sorted(np.asarray(out["xgrid"]["grid"], dtype=float)) == sorted(set(float(v_) for v_ in o["interpolation_xgrid"]))
                         and bool(out["xgrid"]["log"]) == o["interpolation_is_log"]
                         and out["polynomial_degree"] == o["interpolation_polynomial_degree"]))
             res.append(("output pids are the flavour basis", list(out["pids"]) == list(br.flavor_basis_pids)))
